@@ -227,3 +227,8 @@ PROPERTIES["C20"]["explanation"] += " The shift inside exp is the maximum of the
 PROPERTIES["C02"]["rules"] += [sim.data_space_layout]
 PROPERTIES["C02"]["explanation"] += (" The choices an agent is offered are exactly those that pass the filters at the agent's states in the "
                                      "simulated period (R5.LAY2: same mask for rows and segments, all filters, _period = current period).")
+
+for _p in ("C03", "C04", "C07", "C11"):
+    PROPERTIES[_p]["rules"] += [sig.weight_index_order]
+    PROPERTIES[_p]["explanation"] += (" The weight function indexes the transition array in the signature order of the next function, the "
+                                      "order of the template's axes (R17.WORDER).")
